@@ -158,6 +158,11 @@ pub fn panic_is_library(loc: &str, msg: &str) -> bool {
         || loc.contains("/bstr-")
         || loc.contains("/unicode-segmentation-")
         || loc.contains("/similar")
+        // panics raised inside std without #[track_caller] (Instant + Duration overflow, capacity
+        // overflow, BTreeMap internals ...): harness code is written not to provoke those, so they
+        // are attributed to the library call that was in progress
+        || loc.starts_with("/rustc/")
+        || loc.starts_with("library/")
 }
 
 /// Runs `f` (which calls into the library); a library panic becomes `Err(description)`.
@@ -801,6 +806,9 @@ pub fn run_property<P: Prop>(opts: &RunOpts) -> i32 {
     // report
     let mut exit = 0;
     for v in violations.iter_mut() {
+        if v.message.chars().count() > 2500 {
+            v.message = format!("{} … [message truncated, {} chars]", v.message.chars().take(2500).collect::<String>(), v.message.chars().count());
+        }
         let path = match &v.replay_path {
             Some(p) => p.clone(),
             None => write_replay(P::ID, opts.seed, v),
